@@ -153,9 +153,8 @@ Definition bufpool_expand (b n : N) : prog :=
 Definition get_buffer (b sz : N) : prog :=
   Call n_getBuffer (
     Use (B_pool b) ;;
-    IfEmpty (B_fam b) Skip
-      (Pop (B_fam b) (B_tmp b) ;;
-       Choice 1 (Return true)                              (* size conditions respected *)
+    PopElse (B_fam b) (B_tmp b) Skip
+      (Choice 1 (Return true)                              (* size conditions respected *)
                 (Free (B_tmp b) (Some (B_cm b)) ;; SetNull (B_tmp b))) ;;
     Alloc (B_tmp b) false sz ;;
     IfNull (B_tmp b) (Return false) (Return true)).
@@ -208,9 +207,9 @@ Definition cctxpool_expand (b w : N) : prog :=
 Definition get_cctx (b : N) : prog :=
   Call n_getCCtx (
     Use (C_pool b) ;;
-    IfEmpty (C_fam b)
+    PopElse (C_fam b) (C_tmp b)
       (Alloc (C_tmp b) false a_sizeof_ZSTD_CCtx ;; IfNull (C_tmp b) (Return false) (Return true))
-      (Pop (C_fam b) (C_tmp b) ;; Pop (C_wsfam b) (C_tmpws b) ;; Return true)).
+      (Pop (C_wsfam b) (C_tmpws b) ;; Return true)).
 
 (* ZSTDMT_releaseCCtx(pool, cctx) *)
 Definition release_cctx (b : N) : prog :=
@@ -352,7 +351,7 @@ Definition mt_job (wsz bsz : N) : prog :=
 
 (* flushing a finished job: its dst buffer goes back to the pool *)
 Definition mt_flush_job : prog :=
-  IfEmpty (B_held M_bufPool) Skip (Pop (B_held M_bufPool) (B_tmp M_bufPool) ;; release_buffer M_bufPool).
+  PopElse (B_held M_bufPool) (B_tmp M_bufPool) Skip (release_buffer M_bufPool).
 
 (* ------------------------------------------------------------------ zstd_compress.c *)
 Definition cctx_create : prog :=
